@@ -29,6 +29,7 @@ fn main() {
     }
     match args[1].as_str() {
         "tables" => tables::print_tables(),
+        "tagsweep" if args.get(2).map(|a| a == "near").unwrap_or(false) => tables::tagnear(),
         "tagsweep" => {
             let lo: u64 = args[2].parse().unwrap();
             let hi: u64 = args[3].parse().unwrap();
